@@ -29,20 +29,26 @@ func point(op string) {
 	}
 }
 
-func AddInt32(addr *int32, delta int32) int32    { point("AddInt32"); return atomic.AddInt32(addr, delta) }
-func AddInt64(addr *int64, delta int64) int64    { point("AddInt64"); return atomic.AddInt64(addr, delta) }
-func AddUint32(addr *uint32, delta uint32) uint32 { point("AddUint32"); return atomic.AddUint32(addr, delta) }
-func AddUint64(addr *uint64, delta uint64) uint64 { point("AddUint64"); return atomic.AddUint64(addr, delta) }
-func LoadInt32(addr *int32) int32                { point("LoadInt32"); return atomic.LoadInt32(addr) }
-func LoadInt64(addr *int64) int64                { point("LoadInt64"); return atomic.LoadInt64(addr) }
-func LoadUint32(addr *uint32) uint32             { point("LoadUint32"); return atomic.LoadUint32(addr) }
-func LoadUint64(addr *uint64) uint64             { point("LoadUint64"); return atomic.LoadUint64(addr) }
-func StoreInt32(addr *int32, v int32)            { point("StoreInt32"); atomic.StoreInt32(addr, v) }
-func StoreInt64(addr *int64, v int64)            { point("StoreInt64"); atomic.StoreInt64(addr, v) }
-func StoreUint32(addr *uint32, v uint32)         { point("StoreUint32"); atomic.StoreUint32(addr, v) }
-func StoreUint64(addr *uint64, v uint64)         { point("StoreUint64"); atomic.StoreUint64(addr, v) }
-func SwapInt32(addr *int32, v int32) int32       { point("SwapInt32"); return atomic.SwapInt32(addr, v) }
-func SwapInt64(addr *int64, v int64) int64       { point("SwapInt64"); return atomic.SwapInt64(addr, v) }
+func AddInt32(addr *int32, delta int32) int32 { point("AddInt32"); return atomic.AddInt32(addr, delta) }
+func AddInt64(addr *int64, delta int64) int64 { point("AddInt64"); return atomic.AddInt64(addr, delta) }
+func AddUint32(addr *uint32, delta uint32) uint32 {
+	point("AddUint32")
+	return atomic.AddUint32(addr, delta)
+}
+func AddUint64(addr *uint64, delta uint64) uint64 {
+	point("AddUint64")
+	return atomic.AddUint64(addr, delta)
+}
+func LoadInt32(addr *int32) int32          { point("LoadInt32"); return atomic.LoadInt32(addr) }
+func LoadInt64(addr *int64) int64          { point("LoadInt64"); return atomic.LoadInt64(addr) }
+func LoadUint32(addr *uint32) uint32       { point("LoadUint32"); return atomic.LoadUint32(addr) }
+func LoadUint64(addr *uint64) uint64       { point("LoadUint64"); return atomic.LoadUint64(addr) }
+func StoreInt32(addr *int32, v int32)      { point("StoreInt32"); atomic.StoreInt32(addr, v) }
+func StoreInt64(addr *int64, v int64)      { point("StoreInt64"); atomic.StoreInt64(addr, v) }
+func StoreUint32(addr *uint32, v uint32)   { point("StoreUint32"); atomic.StoreUint32(addr, v) }
+func StoreUint64(addr *uint64, v uint64)   { point("StoreUint64"); atomic.StoreUint64(addr, v) }
+func SwapInt32(addr *int32, v int32) int32 { point("SwapInt32"); return atomic.SwapInt32(addr, v) }
+func SwapInt64(addr *int64, v int64) int64 { point("SwapInt64"); return atomic.SwapInt64(addr, v) }
 func CompareAndSwapInt32(addr *int32, o, n int32) bool {
 	point("CASInt32")
 	return atomic.CompareAndSwapInt32(addr, o, n)
@@ -59,7 +65,10 @@ func CompareAndSwapUint64(addr *uint64, o, n uint64) bool {
 	point("CASUint64")
 	return atomic.CompareAndSwapUint64(addr, o, n)
 }
-func LoadPointer(addr *unsafe.Pointer) unsafe.Pointer { point("LoadPointer"); return atomic.LoadPointer(addr) }
+func LoadPointer(addr *unsafe.Pointer) unsafe.Pointer {
+	point("LoadPointer")
+	return atomic.LoadPointer(addr)
+}
 func StorePointer(addr *unsafe.Pointer, v unsafe.Pointer) {
 	point("StorePointer")
 	atomic.StorePointer(addr, v)
